@@ -153,6 +153,7 @@ func c17History(k *core.Case) {
 	s := ref.Suites[k.Index%9]
 	raw := libsa.RandomRaw(k.R, s)
 	if bytes.Equal(raw.K.Ai, raw.K.Ar) {
+		raw.In = nil
 		raw.K.Ar = k.R.Bytes(len(raw.K.Ar))
 	}
 	long, err := libsa.NewKey(raw)
